@@ -32,12 +32,18 @@ def values? (s : String) : Option (List Float) :=
   | some l => if l.length = 25 then some l else none
   | none => none
 
-def runOp (d : Dict Float) (op : String) : Option (Dict Float × String) :=
+/-- state = (coefficient dict, ordinary attributes).  A write to a name that is neither alias nor symbol is stored by Python as an
+ordinary object attribute (`super().__setattr__`) and read back by normal attribute lookup; the model's `setAttr` reports such names
+as "not_an_aberration", and this glue keeps them in a second dict so that the attribute protocol is complete. -/
+abbrev St := Dict Float × Dict Float
+
+def runOp (st : St) (op : String) : Option (St × String) :=
+  let (d, other) := st
   match op.splitOn "=" with
   | ["s", name, b] => (parseFloatBits? b).map fun v =>
       match setAttr c10OfDefocus d name v with
-      | .ok d' => (d', "ok")
-      | .error e => (d, s!"err:{e}")
+      | .ok d' => ((d', other), "ok")
+      | .error _ => ((d, dictSet other name v), "ok")
   | ("u" :: rest) =>
       -- u=<name>=<bits>=<name>=<bits>… : obj.set_aberrations({name: value, …})
       let rec items : List String → Option (List (String × Float))
@@ -48,17 +54,23 @@ def runOp (d : Dict Float) (op : String) : Option (Dict Float × String) :=
             pure ((name, v) :: tl)
         | _ => none
       (items rest).map fun its =>
-        match setAberrations c10OfDefocus d its with
-        | .ok d' => (d', "ok")
-        | .error e => (d, s!"err:{e}")
+        -- item by item, like `s`: aberration names go to the coefficient dict, any other name to the ordinary attributes
+        let st' := its.foldl (fun (acc : St) kv =>
+          match setAttr c10OfDefocus acc.1 kv.1 kv.2 with
+          | .ok d' => (d', acc.2)
+          | .error _ => (acc.1, dictSet acc.2 kv.1 kv.2)) (d, other)
+        (st', "ok")
   | ["g", name] =>
       match getAttr defocusOfC10 0 d name with
-      | .ok v => some (d, showFloatBits v)
-      | .error e => some (d, s!"err:{e}")
+      | .ok v => some (st, showFloatBits v)
+      | .error e =>
+        match other.lookup name with
+        | some v => some (st, showFloatBits v)
+        | none => some (st, s!"err:{e}")
   | _ => none
 
-def runOps (ops : List String) : Option (Dict Float × List String) :=
-  ops.foldl (fun st op => st.bind fun (d, outs) => (runOp d op).map fun (d', o) => (d', outs ++ [o])) (some (initDict 0, []))
+def runOps (ops : List String) : Option (St × List String) :=
+  ops.foldl (fun st op => st.bind fun (d, outs) => (runOp d op).map fun (d', o) => (d', outs ++ [o])) (some ((initDict 0, []), []))
 
 def handle : List String → String
   | ["transfer", al, ph, wl, vs] =>
@@ -75,7 +87,7 @@ def handle : List String → String
   | ["resolve", name] => s!"ok {resolve name} {showBool (symbolKeys.contains (resolve name))}"
   | ["attrs", ops] =>
     match runOps (ops.splitOn ";") with
-    | some (d, outs) => s!"ok {";".intercalate outs}|{showList showFloatBits (d.map (·.2))}"
+    | some ((d, _), outs) => s!"ok {";".intercalate outs}|{showList showFloatBits (d.map (·.2))}"
     | none => "bad-op"
   | _ => "bad-op"
 
